@@ -66,6 +66,8 @@ pub struct Instant { pub t: nat }
 pub struct Duration { pub d: nat }
 impl Duration {
     #[verifier::external_body]
+    pub fn from_secs(secs: u64) -> (r: Duration) ensures r.d == secs as nat * 1_000_000_000 { unimplemented!() }
+    #[verifier::external_body]
     pub fn is_zero(&self) -> (r: bool) ensures r == (self.d == 0) { unimplemented!() }
 }
 impl vstd::std_specs::ops::AddSpecImpl<Duration> for Instant {
@@ -91,6 +93,9 @@ impl vstd::std_specs::cmp::PartialEqSpecImpl for Instant {
 impl PartialEq for Instant { #[verifier::external_body] fn eq(&self, o: &Instant) -> bool { unimplemented!() } }
 impl PartialOrd for Instant { #[verifier::external_body] fn partial_cmp(&self, o: &Instant) -> Option<core::cmp::Ordering> { unimplemented!() } }
 impl Instant {
+    // Instant::checked_add: None only on overflow, which the mathematical model of time does not have (ASSUMPTION: machine arithmetic of Instant/Duration)
+    #[verifier::external_body]
+    pub fn checked_add(&self, d: Duration) -> (r: Option<Instant>) ensures r == Some(Instant { t: self.t + d.d }) { unimplemented!() }
     #[verifier::external_body]
     pub fn now(env: &mut Env) -> (r: Instant)
         ensures grows(old(env), final(env)), final(env).now == old(env).now, same_world(old(env), final(env)), r.t == final(env).now@,
